@@ -16,7 +16,9 @@ type integer interface {
 type float interface{ ~float32 | ~float64 }
 type cplx interface{ ~complex64 | ~complex128 }
 type realnum interface{ integer | float }
-type ordered interface{ integer | float | ~string | ~uintptr }
+type ordered interface {
+	integer | float | ~string | ~uintptr
+}
 
 // undefinedVal marks a coordinate where Go has no value (integer division by zero).
 type undefinedVal struct{}
